@@ -1,4 +1,7 @@
+#[cfg(not(routee_compass_verif))]
 use std::{num::NonZeroUsize, sync::Mutex};
+#[cfg(routee_compass_verif)]
+use {crate::util::verif_sync::Mutex, std::num::NonZeroUsize};
 
 use lru::LruCache;
 use serde::{Deserialize, Serialize};
